@@ -221,7 +221,7 @@ def parse_clauses(lines, kind, fn, known=None, loop=None, counter=None):
             res[-1].append(ln.strip())
     out = []
     for parts in res:
-        text = ' '.join(parts)
+        text = '\n                '.join(parts)
         tags, name = [], None
         mt = TAG_RE.match(text)
         if mt:
@@ -290,10 +290,13 @@ def parse_fn_block(header, lines):
             fn.anchors.append((mt.group(1), mt.group(2), int(mt.group(3) or 1), body))
         elif key.startswith('known'):
             kid = key.split()[1]
-            k = fn.known.setdefault(kid, dict(requires=[], ensures=[], loops={}, bodysubs=[]))
+            k = fn.known.setdefault(kid, dict(requires=[], ensures=[], loops={}, bodysubs=[], drop=[]))
             sub, cur = {}, None
             for b in body:
                 s = b.strip()
+                if s.startswith('drop:'):
+                    k['drop'] += s[5:].split()
+                    continue
                 if s in ('requires', 'ensures') or re.match(r'bodysub\b', s) or re.match(r'loop \d+ invariant$', s):
                     cur = s
                     sub[cur] = []
@@ -529,7 +532,7 @@ class Generator:
                 c2 = c
                 clauses.append((c, a, out.lineno(), kid))
 
-        req = fn.requires + (known['requires'] if known else [])
+        req = [c for c in fn.requires if not (known and c.name in known['drop'])] + (known['requires'] if known else [])
         ens = fn.ensures + (known['ensures'] if known else [])
         emit_clauses('requires', req)
         emit_clauses('ensures', ens)
